@@ -1,5 +1,6 @@
+use crate::algorithm::search::direction::Direction;
 use crate::model::network::graph::Graph;
-use crate::model::network::{network_error::NetworkError, vertex_id::VertexId};
+use crate::model::network::{edge_id::EdgeId, network_error::NetworkError, vertex_id::VertexId};
 use std::collections::HashSet;
 
 /// Conducts a depth-first search (DFS) on a directed graph.
@@ -25,19 +26,48 @@ pub fn depth_first_search(
     visited: &mut HashSet<VertexId>,
     stack: &mut Vec<VertexId>,
 ) -> Result<(), NetworkError> {
+    directed_depth_first_search(graph, vertex, &Direction::Forward, visited, stack)
+}
+
+/// the search behind [`depth_first_search`] (forward: out-edges towards their destinations) and
+/// [`reverse_depth_first_search`] (reverse: in-edges towards their sources).
+///
+/// vertices are visited, and pushed onto `stack` when all their incident edges have been followed,
+/// in the order of a recursive depth-first search, but the pending vertices are kept in an explicit
+/// list of frames (vertex, its incident edges, position of the next edge to follow) rather than on
+/// the call stack: a road network easily has search trees hundreds of thousands of vertices deep,
+/// and a recursion that deep overflows the thread's stack.
+fn directed_depth_first_search(
+    graph: &Graph,
+    vertex: &VertexId,
+    direction: &Direction,
+    visited: &mut HashSet<VertexId>,
+    stack: &mut Vec<VertexId>,
+) -> Result<(), NetworkError> {
     if visited.contains(vertex) {
         return Ok(());
     }
 
     visited.insert(*vertex);
 
-    let edges = graph.out_edges(vertex);
-    for edge in edges {
-        let dst = graph.dst_vertex_id(&edge)?;
-        depth_first_search(graph, &dst, visited, stack)?;
+    let mut frames: Vec<(VertexId, Vec<EdgeId>, usize)> =
+        vec![(*vertex, graph.incident_edges(vertex, direction), 0)];
+    while let Some((current, edges, next)) = frames.last_mut() {
+        match edges.get(*next).copied() {
+            Some(edge) => {
+                *next += 1;
+                let terminal = graph.incident_vertex(&edge, direction)?;
+                if visited.insert(terminal) {
+                    let terminal_edges = graph.incident_edges(&terminal, direction);
+                    frames.push((terminal, terminal_edges, 0));
+                }
+            }
+            None => {
+                stack.push(*current);
+                frames.pop();
+            }
+        }
     }
-
-    stack.push(*vertex);
 
     Ok(())
 }
@@ -65,21 +95,7 @@ pub fn reverse_depth_first_search(
     visited: &mut HashSet<VertexId>,
     stack: &mut Vec<VertexId>,
 ) -> Result<(), NetworkError> {
-    if visited.contains(vertex) {
-        return Ok(());
-    }
-
-    visited.insert(*vertex);
-
-    let edges = graph.in_edges(vertex);
-    for edge in edges {
-        let src = graph.src_vertex_id(&edge)?;
-        reverse_depth_first_search(graph, &src, visited, stack)?;
-    }
-
-    stack.push(*vertex);
-
-    Ok(())
+    directed_depth_first_search(graph, vertex, &Direction::Reverse, visited, stack)
 }
 
 /// Finds all strongly connected components in a directed graph.
